@@ -353,7 +353,12 @@ fn run_one(cx: &mut Ctx, it: &Item, out: &mut Buf) {
                 out.count("no_code", 1);
                 return;
             }
-            (s, e, if result.is_err() { "RPanic".to_string() } else { "RErr".to_string() })
+            let exp = match &result {
+                Err(msg) if msg.contains("Grammar refers to") => "(RPanic (PDangling 0))".to_string(),
+                Err(_) => "(RPanic PUnwrap)".to_string(),
+                _ => "RErr".to_string(),
+            };
+            (s, e, exp)
         }
         (Ok(Ok(_)), None) => {
             out.count("no_root_match_recorded", 1);
